@@ -126,6 +126,11 @@ theorem C01_valid_frames_encode (f : Frame) (hv : ValidFrame none f)
           rw [hv.body.direction, Bool.and_comm]; exact hc
         obtain ⟨u, hu, _⟩ := hv.body.tracing hc'
         rw [whenW_true, hu]; exact ⟨_, rfl⟩
+    have hwc : (hasFlag f.header.flags HeaderFlagWarning && f.body.message.isResponse) = hasFlag f.header.flags HeaderFlagWarning := by
+      cases hf : hasFlag f.header.flags HeaderFlagWarning with
+      | false => rfl
+      | true => rw [← hv.body.direction, (hv.body.warnings hf).1]; rfl
+    rw [hwc]
     have h2 : ∃ wa, whenW (hasFlag f.header.flags HeaderFlagWarning)
         (if f.header.version < ProtocolVersion4 ∧ f.body.warnings.isSome then Res.err "warnings are not supported"
          else .ok (writeStringList (f.body.warnings.getD []))) = .ok wa := by
